@@ -164,7 +164,8 @@ def run(ctx: Ctx) -> dict:
     extra.update(small_scope(ctx, 6, SIGMA_QUICK if ctx.quick else SIGMA_FULL))
     env = ctx.frozen(banks=False)
     table = ctx.table(env)
-    ops = wide_ops(ctx, table)
+    import fuzz
+    ops = fuzz.extend(ctx, wide_ops(ctx, table), "c01")     # plus coverage-chosen mutants (every branch)
     events = calls.execute(ctx, ops, "wide")
     mism = calls.validate(ctx, "TraceCalls", events, env, "wide", per_shard=20000)
     calls.report(ctx, mism, CLAUSES)
